@@ -69,6 +69,10 @@ EVENTS = {
     "E2": [(80.0, 0), (75.5, 3), (90.25, 0)],  # indicator with a gap: three event types
     "E3": [(80.0, 0), (75.5, 0), (90.25, 0)],  # nobody has an event: documented as refused when nb_events is not given
     "E4": [(80.0, 1), (75.5, 1), (90.25, 2)],
+    # individuals sharing their event: same time and same indicator (ages at event in whole years, a common administrative
+    # censoring age): two of them observed at 80, the third one censored at 80 as well
+    "E5": [(80.0, 1), (80.0, 1), (80.0, 0)],
+    "E6": [(85.0, 0), (85.0, 0), (85.0, 2)],
 }
 
 #: COV_LEVELS[k] = levels of (COV, COV2) of individual k
@@ -486,6 +490,9 @@ def crossed_malformation_name(case) -> str:
     return f"{mal['role']} {mal['bad']},column dtype={mal['container']}"
 
 
+LABEL_FORMS = ("labels_reversed", "labels_sparse", "labels_text", "labels_duplicate")
+
+
 def build_frame(case) -> pd.DataFrame:
     cols = base_columns(case)
     mal = case.get("mal")
@@ -496,8 +503,17 @@ def build_frame(case) -> pd.DataFrame:
     elif mal:
         cols = apply_malformation(case, cols)
     df = pd.DataFrame(cols)
-    if case["form"] == "index":
+    form = case["form"]
+    if form == "index":
         df = df.set_index(["ID"] if case["layout"] == "event" else ["ID", "TIME"])
+    elif form in LABEL_FORMS:
+        # ID / TIME as columns, but the row labels are not 0..n-1 in order (a shuffled, filtered or concatenated table whose
+        # index was not reset): rows are rows, their labels carry no meaning for the ingestion
+        n = len(df)
+        df.index = {"labels_reversed": list(range(n - 1, -1, -1)), "labels_sparse": [10 * ((7 * i + 3) % n) + 3 for i in range(n)],
+                    "labels_text": [f"row{(5 * i + 2) % n}" for i in range(n)], "labels_duplicate": [0] * n}[form]
+    elif form != "columns":
+        raise ValueError(form)
     return df
 
 
